@@ -21,8 +21,8 @@ import common
 from common import bits2float, dec, fr
 
 PROP = "C17"
-PROPS_FILES = ["Pms/Props/C17.lean", "Pms/Props/C17Real.lean"]
-GENERATORS = []
+PROPS_FILES = ["Pms/Props/C17.lean", "Pms/Props/C17Real.lean", "Pms/Props/C17Src.lean"]
+GENERATORS = ["localorder"]
 RULE = ("four seeded streams. s2: d∈{2,3} × cell {orthogonal, lower-triangular} × mask {0,1}^d × 1–3 species with a "
         "symmetric/asymmetric width matrix × bin settings (rdelta, ndelta) × 1–2 frames; tetra: 3-D, N∈[5,12], random "
         "and tetrahedral-motif configurations (scaled/rotated diamond motif + far particles), N=5 included; nematic: "
@@ -850,7 +850,12 @@ def search(run, broken):
     tried = 0
     for b in broken:
         pool = list(b.get("cases", []))
-        kinds = [k for k in GEN if b["name"].endswith("~" + k)] or list(GEN)
+        nm = b["name"].lower() + " " + str(b.get("detail", "")).lower()
+        kinds = [k for k in GEN if b["name"].endswith("~" + k)]
+        if not kinds:   # a broken theorem / translator item: direct the search by what it is about
+            hints = {"s2": ("s2", "gauss", "trapz", "pairentropy"), "tetra": ("tetra", "geometric"),
+                     "nematic": ("nematic", "cg_", "coarse"), "gyr": ("gyr", "shape")}
+            kinds = [k for k, ws in hints.items() if any(w in nm for w in ws)] or list(GEN)
         pool += [GEN[k](run.rng) for k in kinds for _ in range(150 if run.tier == "quick" else 1500)]
         found = False
         for c in pool:
